@@ -1,26 +1,28 @@
 #!/bin/bash
-# seed_matrix.sh : apply every kept seeded change to /repo in turn, run the checks its meta.json names
-# (quick tier), undo it; writes /verif/seeded/MATRIX.md
+# seed_matrix.sh [jobs] : for every kept seeded change, run the checks its meta.json names (quick tier) against a
+# scratch worktree of /repo's HEAD with the change applied (tools/trypatch.sh: private mount namespace, /repo and
+# the committed evidence stay untouched), several changes at a time; writes /verif/seeded/MATRIX.md
+jobs=${1:-4}
 out=/verif/seeded/MATRIX.md
-echo "| seeded change | breaks | check | exit | VIOLATION lines | first signature |" > $out.tmp
-echo "|---|---|---|---|---|---|" >> $out.tmp
-for d in /verif/seeded/*/; do
-  n=$(basename $d)
-  [ -f $d/meta.json ] || continue
+tmp=$(mktemp -d /tmp/matrix.XXXXXX)
+ls -d /verif/seeded/*/ | while read d; do
+  n=$(basename $d); [ -f $d/meta.json ] || continue
+  echo "$n"
+done > $tmp/list
+one() {
+  n=$1; tmp=$2; d=/verif/seeded/$n
   prop=$(python3 -c "import json;print(json.load(open('$d/meta.json'))['property'])")
-  checks=$(python3 -c "import json;print(' '.join(json.load(open('$d/meta.json'))['caught_by'] or [json.load(open('$d/meta.json'))['property']]))")
-  cd /repo
-  if [ -n "$(git status --porcelain --untracked-files=no)" ]; then echo "/repo not clean"; exit 2; fi
-  if ! git apply $d/patch.diff 2>/dev/null && ! git apply -3 $d/patch.diff 2>/dev/null; then
-    echo "| $n | $prop | - | patch does not apply | - | - |" >> $out.tmp; git reset -q --hard; continue
-  fi
-  for id in $checks; do
-    o=$(cd /verif && ./vcheck $id quick 2>&1); rc=$?
-    nv=$(echo "$o" | grep -a -c '^VIOLATION')
-    sig=$(echo "$o" | grep -a -m1 'signature:' | sed 's/ *signature: //' | cut -c1-90 | tr '|' '/')
-    echo "| $n | $prop | $id | $rc | $nv | $sig |" >> $out.tmp
-    echo "$n $id rc=$rc viol=$nv"
-  done
-  git reset -q --hard
-done
-mv $out.tmp $out
+  checks=$(python3 -c "import json;m=json.load(open('$d/meta.json'));print(' '.join(m['caught_by'] or [m['property']]))")
+  /verif/tools/trypatch.sh $d/patch.diff $checks 2>/dev/null | grep -a -v '^WARNING' | while read line; do
+    case "$line" in
+      "patch does not apply") echo "| $n | $prop | - | patch does not apply | - | - |";;
+      *) id=$(echo "$line" | awk '{print $1}'); rc=$(echo "$line" | sed 's/.* rc=\([0-9]*\) .*/\1/'); nv=$(echo "$line" | sed 's/.* viol=\([0-9]*\).*/\1/'); sig=$(echo "$line" | sed 's/.* viol=[0-9]* *//' | tr '|' '/' | cut -c1-90)
+         echo "| $n | $prop | $id | $rc | $nv | $sig |";;
+    esac
+  done > $tmp/$n.row
+  echo "$n done: $(tr '\n' ' ' < $tmp/$n.row | cut -c1-160)"
+}
+export -f one
+xargs -a $tmp/list -P $jobs -I{} bash -c 'one {} '$tmp
+{ echo "| seeded change | breaks | check | exit | VIOLATION lines | first signature |"; echo "|---|---|---|---|---|---|"; for n in $(cat $tmp/list); do cat $tmp/$n.row; done; } > $out
+rm -rf $tmp
